@@ -388,3 +388,11 @@ Fixpoint stream_reads (ns : list Z) (ms : list (list Z)) : option (list (list Z)
                                  end
               end
   end.
+
+(* --- round 6 strengthening: a selection as an object.  BamBufferExtractor.__getitem__(item) builds a new extractor over
+       the SAME bytes with _new_lines[item], _ends[item]; chained selections t[a][b] apply it twice.  Every column of the
+       selection is then decoded from its own starts (decode_buf / intervals_buf of the selected buffer); nothing that was
+       computed for the parent (offsets, lengths) may be reused.  [idx] = a NumPy integer index list with entries in
+       0 .. len-1 (a boolean mask is the list of its True positions, a slice the list of its positions). *)
+Definition select_buf (b : buf) (idx : list Z) : buf :=
+  {| bf_data := bf_data b; bf_starts := select (bf_starts b) idx; bf_ends := select (bf_ends b) idx |}.
